@@ -40,6 +40,7 @@ Inductive epc :=
 | ECheck               (* Run: about to test noMoreEvent() *)
 | ELock                (* Run: saw an event, about to pauseLock.Lock() *)
 | EPop                 (* Run: holds pauseLock, about to pop and handle *)
+| ESend (mp : bool)    (* Tick: about to sendToGPUs (and the middlewares' Tick) *)
 | ERet (mp : bool)     (* Tick: about to processReturnReq *)
 | ERetNotify (q : nat) (* Dequeue in processLaunchKernelReturn: removed, about to notify *)
 | EQ (i : nat) (mp : bool) (* processNewCommandFromCmdQueue(queue i) *)
@@ -59,6 +60,7 @@ Record state := mkState {
   erunning : bool;         (* Driver.engineRunning *)
   rerun : bool;            (* repaired code only: a signal arrived while the engine was running *)
   tick : bool;             (* a tick event of the driver is in the event queue *)
+  tosend : list nat;       (* Driver.requestsToSend: requests built by processNewCommand, sent by the next Ticks *)
   gpu : list nat;          (* queues with a request being served: one pending event each *)
   resp : list nat;         (* responses waiting in the driver's GPU port *)
   mw0 : bool;              (* defaultMemoryCopyMiddleware.cyclesLeft is still its zero value: the
@@ -67,10 +69,10 @@ Record state := mkState {
   g_log : list (nat * nat * N)  (* ghost: (thread, queue, id) of every Enqueue, in order *)
 }.
 #[export] Instance eta_state : Settable _ :=
-  settable! mkState <apps; queues; ra; eng; ewait; edone; pause; erunning; rerun; tick; gpu; resp; mw0; crashed; g_log>.
+  settable! mkState <apps; queues; ra; eng; ewait; edone; pause; erunning; rerun; tick; tosend; gpu; resp; mw0; crashed; g_log>.
 
 Definition init (nq : nat) (progs : list (list op)) : state :=
-  mkState (map init_app progs) (repeat empty_queue nq) RTop None 0 0 false false false false [] [] true false [].
+  mkState (map init_app progs) (repeat empty_queue nq) RTop None 0 0 false false false false [] [] [] true false [].
 
 Inductive tstep :=
 | TApp (t : nat)     (* application thread t *)
@@ -173,7 +175,12 @@ Definition eng_step (c : cfg) (s : state) : option state :=
     | ECheck =>
       Some (set_eng (if tick s || nonempty (gpu s) then ELock else EReturned) s)
     | ELock => if pause s then None else Some (set_eng EPop (s <| pause := true |>))
-    | EPop => if tick s then Some (set_eng (ERet (mw0 s)) (s <| tick := false |> <| mw0 := false |>)) else None
+    | EPop => if tick s then Some (set_eng (ESend (mw0 s)) (s <| tick := false |> <| mw0 := false |>)) else None
+    | ESend mp =>                                   (* sendToGPUs: at most one request per tick *)
+      match tosend s with
+      | [] => Some (set_eng (ERet mp) s)
+      | q :: r => Some (set_eng (ERet true) (s <| tosend := r |> <| gpu := gpu s ++ [q] |>))
+      end
     | ERet mp =>
       match resp s with
       | [] => Some (set_eng (eq_or_end s 0 mp) s)
@@ -217,7 +224,7 @@ Definition eng_step (c : cfg) (s : state) : option state :=
                  Some (set_eng (eq_or_end s (S i) true)
                    (s <| queues := upd i (fun qq => qq <| q_running := true |>
                                                     <| q_start := q_start qq ++ [c_id cm] |>) (queues s) |>
-                      <| gpu := gpu s ++ [i] |>))
+                      <| tosend := tosend s ++ [i] |>))
                end
         end
       end
@@ -311,7 +318,7 @@ Definition rapc_code (p : rapc) : N :=
 Definition epc_code (p : option epc) : N * N :=
   match p with
   | None => (0, 0)
-  | Some ECheck => (1, 0) | Some ELock => (2, 0) | Some EPop => (3, 0)
+  | Some ECheck => (1, 0) | Some ELock => (2, 0) | Some EPop => (3, 0) | Some (ESend _) => (11, 0)
   | Some (ERet _) => (4, 0) | Some (ERetNotify q) => (5, N.of_nat q)
   | Some (EQ i _) => (6, N.of_nat i) | Some (EQNotify i) => (7, N.of_nat i)
   | Some (EEnd _) => (8, 0) | Some EReturned => (9, 0) | Some EExit => (10, 0)
@@ -332,7 +339,8 @@ Definition observe (c : cfg) (s : state) : list N :=
                          N.of_nat (length (q_lst q)); b2n (q_running q)]%N) (queues s)
   ++ [99%N]
   ++ map (fun t => b2n (enabled c s (TApp t))) (seq 0 (length (apps s)))
-  ++ [b2n (enabled c s TRa); b2n (enabled c s TEngStart); b2n (enabled c s TEng)].
+  ++ [b2n (enabled c s TRa); b2n (enabled c s TEngStart);
+      b2n (enabled c s TEng || existsb (fun q => enabled c s (TEngGpu q)) (gpu s))].
 
 Fixpoint list_eqb (a b : list N) : bool :=
   match a, b with
@@ -403,13 +411,13 @@ Definition sched_lost : list tstep :=
    TRa;                       (* runAsync reaches its select *)
    TApp 0;                    (* enqueueSignal rendezvous *)
    TRa; TRa; TRa; TRa;        (* Pause, TickLater, Continue, test+spawn *)
-   TEngStart; TEng; TEng; TEng; TEng;  (* acquire, noMoreEvent=false, lock, pop tick, processReturnReq *)
+   TEngStart; TEng; TEng; TEng; TEng; TEng;  (* acquire, noMoreEvent=false, lock, pop tick, sendToGPUs, processReturnReq *)
    TApp 0;                    (* waiter: NumCommand() = 1 *)
    TEng;                      (* Dequeue removes the command *)
    TEng;                      (* ... and notifies: nobody is receiving -> default *)
    TApp 0                     (* waiter: <-signal blocks *)
   ]
-  ++ [TEng; TEng; TEng; TEng; TEng; TEng; TEng; TEng; TEng; TEng]  (* next tick finds nothing; Run returns; exit *)
+  ++ [TEng; TEng; TEng; TEng; TEng; TEng; TEng; TEng; TEng; TEng; TEng]  (* next tick finds nothing; Run returns; exit *)
   ++ [TRa].
 
 (** (2) engine-exit race: Run has returned, engineRunning is still true while
@@ -418,9 +426,9 @@ Definition prog_exit : list (list op) :=
   [[OEnq 0 (noop 1); ODrain 0; OEnq 0 (noop 2); ODrain 0]].
 Definition sched_exit : list tstep :=
   [TApp 0; TApp 0; TApp 0; TRa; TApp 0; TRa; TRa; TRa; TRa;
-   TEngStart; TEng; TEng; TEng; TEng; TEng; TEng;          (* ... Dequeue + notify *)
+   TEngStart; TEng; TEng; TEng; TEng; TEng; TEng; TEng;    (* ... Dequeue + notify *)
    TApp 0; TApp 0; TApp 0;                                 (* check = 0, close, unsubscribe: first Drain returned *)
-   TEng; TEng; TEng; TEng; TEng; TEng; TEng; TEng;         (* second tick: nothing; noMoreEvent -> Run returns *)
+   TEng; TEng; TEng; TEng; TEng; TEng; TEng; TEng; TEng;   (* second tick: nothing; noMoreEvent -> Run returns *)
    TRa;                                                    (* runAsync back in select *)
    TApp 0; TApp 0; TApp 0; TApp 0;                         (* Enqueue; subscribe; signal *)
    TRa; TRa; TRa; TRa;                                     (* tick scheduled; engineRunning still true -> continue *)
